@@ -14,11 +14,16 @@
      (no native cancellation of the caller inside the call scope); the whole `ncr = false` /
      `no_native_cancel_while_running` family is the documented scope "AnyIO shields do not stop Task.cancel()", with
      C14_native_cancel_defeats_non_abandon as the refutation without it;
+   * "calls back into the loop return the right values": whether an awaiting from_thread.run() is cancelled is a
+     theorem (C14_from_thread_run_spec) under `ended s = false` - the loop has not yet run its last iteration; without
+     it the call-back hangs for ever: KNOWN FINDING F51, C14_from_thread_landed_after_loop_end_refuted.  The VALUES
+     and exceptions carried by the round trips (incl. exceptions with a false truth value, F47) are not in the model;
+     they are checked by harness monitors on real threads;
    * "an abandoned thread's from_thread.run() coroutine never spins" is NOT a theorem: the model only says it is not
      cancelled (C14_from_thread_run_spec); not spinning is observed by the harness on real threads (F42 regression).
    Non-vacuity Examples with content are in boundary/ThreadsProofs.v (ex_nonabandon_bound_tight: a non-abandon function
    executing at the end with borrowed = total; ex_no_grant_while_overfull: lowered total, a release, the waiter is not
-   admitted until the excess has drained). *)
+   let in until the excess has drained). *)
 From AV Require Import Base Threads ThreadsProofs.
 
 (* a function that is executing and whose call future is not cancelled (`live s c = true`: not abandoned, caller not
@@ -191,7 +196,7 @@ Print Assumptions C14_call_scope_itself_is_blind.
    returning the value).  Abandoned thread whose caller has left (F42 / 1940035): never cancelled, although
    check_cancelled still raises.  Caller torn away natively: only the handed scope's own flag counts. *)
 Theorem C14_from_thread_run_spec : forall s w c,
-  wk s w = WExec c ->
+  wk s w = WExec c -> ended s = false ->
   step s (ThreadRunAsync w) = (s, RRT (walk (handed_visible (calls s c)))) /\
   (inside (calls s c) = true -> walk (handed_visible (calls s c)) = walk (chain (calls s c))) /\
   (abandon (calls s c) = true -> inside (calls s c) = false -> walk (handed_visible (calls s c)) = false) /\
@@ -199,6 +204,32 @@ Theorem C14_from_thread_run_spec : forall s w c,
      walk (handed_visible (calls s c)) = match chain (calls s c) with (cc, _) :: _ => cc | [] => false end).
 Proof. exact from_thread_run_spec. Qed.
 Print Assumptions C14_from_thread_run_spec.
+
+(* KNOWN FINDING F51 (known_findings.json: property C14, predicate from_thread_landed_after_loop_end), the C14 sibling of
+   C15's F40.  The hypothesis `ended s = false` of C14_from_thread_run_spec is necessary: after the loop's last iteration
+   (op LoopEnd; loop.close() not yet called, is_closed() still False) a thread abandoned by its caller is still executing;
+   its from_thread.run()/run_sync() is handed to a loop that never runs it - the thread waits for ever (RHang: no value,
+   no RunFinishedError).  The model's ThreadRunAsync stands for both from_thread.run and from_thread.run_sync here (same
+   call_soon_threadsafe hand-over). *)
+Theorem C14_from_thread_landed_after_loop_end_refuted :
+  exists ops, let s := final step (init 1 false) ops in
+    no_land_after_loop_end false (ops ++ [ThreadRunAsync 0]) = false /\
+    ended s = true /\ wk s 0 = WExec 0 /\ exec s = [0] /\
+    abandon (calls s 0) = true /\ ph (calls s 0) = PDone DCancelled /\ lb s = [] /\
+    step s (ThreadRunAsync 0) = (s, RHang) /\
+    snd (step (final step (init 1 false) ex_abandon) (ThreadRunAsync 0)) = RRT false.
+Proof. exact rs_from_thread_landed_after_loop_end_refuted. Qed.
+Print Assumptions C14_from_thread_landed_after_loop_end_refuted.
+
+(* ... and under the boolean restriction no_land_after_loop_end (no from_thread call-back is issued after LoopEnd) every
+   call-back of the run is issued with `ended = false`, i.e. falls under C14_from_thread_run_spec.  The ops after LoopEnd
+   other than ThreadRunAsync are not restricted by the model (an over-approximation: the loop-side segments cannot really
+   run any more; the safety theorems above hold for all op sequences anyway). *)
+Theorem C14_from_thread_run_served : forall ops s w,
+  no_land_after_loop_end (ended s) (ops ++ [ThreadRunAsync w]) = true ->
+  ended (final step s ops) = false.
+Proof. exact rs_from_thread_run_served. Qed.
+Print Assumptions C14_from_thread_run_served.
 
 (* worker pool: LIFO reuse, a new worker only when none is idle, a worker is handed a call only when free and only
    by that call's own segment, a call sits on at most one worker *)
